@@ -438,6 +438,30 @@ pub fn constant_program(rng: &mut StdRng) -> (Vec<u8>, bool) {
             items.push(Item::Op(0x55));
         }
     }
+    // now and then: two memory words whose offsets agree in their low bits, written and read back
+    if rng.gen_bool(0.2) {
+        let low = 32 * rng.gen_range(0u8..4);
+        let far: Vec<u8> = match rng.gen_range(0..3) {
+            0 => vec![1, 0, low],
+            1 => vec![1, 0, 0, 0, low],
+            _ => vec![2, 0, 0, 0, 0, low],
+        };
+        let key = |slot: u8| -> Vec<Item> {
+            if key_forms[slot as usize] {
+                vec![Item::Push(vec![3]), Item::Push(vec![slot + 3]), Item::Op(0x03)]
+            } else {
+                vec![Item::Push(vec![slot])]
+            }
+        };
+        items.extend([Item::Push(boundary_const(rng)), Item::Push(vec![low]), Item::Op(0x52)]);
+        items.extend([Item::Push(boundary_const(rng)), Item::Push(far.clone()), Item::Op(0x52)]);
+        items.extend([Item::Push(vec![low]), Item::Op(0x51)]);
+        items.extend(key(2));
+        items.push(Item::Op(0x55));
+        items.extend([Item::Push(far), Item::Op(0x51)]);
+        items.extend(key(3));
+        items.push(Item::Op(0x55));
+    }
     let mut jumpis = 0;
     let alu2: [u8; 19] = [0x01, 0x02, 0x03, 0x04, 0x05, 0x06, 0x07, 0x0a, 0x10, 0x11, 0x12, 0x13, 0x14, 0x16, 0x17, 0x18, 0x1b, 0x1c, 0x1d];
     for blk in 0..nblocks {
@@ -504,13 +528,20 @@ pub fn constant_program(rng: &mut StdRng) -> (Vec<u8>, bool) {
                     d += 1;
                 }
                 13 if d >= 1 => {
-                    // memory at a small word-aligned offset
-                    let off = 32 * rng.gen_range(0u8..4);
+                    // memory at a word-aligned offset: mostly small, now and then far out (offsets that agree in
+                    // their low 16 or 32 bits are different places)
+                    let low = 32 * rng.gen_range(0u8..4);
+                    let off: Vec<u8> = match rng.gen_range(0..8) {
+                        0 => vec![1, 0, low],             // 2^16 + low
+                        1 => vec![1, 0, 0, 0, low],       // 2^32 + low
+                        2 => vec![2, 0, 0, 0, 0, low],    // 2^41 + low
+                        _ => vec![low],
+                    };
                     if rng.gen_bool(0.5) && d > base {
-                        items.extend([Item::Push(vec![off]), Item::Op(0x52)]);
+                        items.extend([Item::Push(off), Item::Op(0x52)]);
                         d -= 1;
                     } else if d < 20 {
-                        items.extend([Item::Push(vec![off]), Item::Op(0x51)]);
+                        items.extend([Item::Push(off), Item::Op(0x51)]);
                         d += 1;
                     }
                 }
